@@ -38,15 +38,16 @@ static bool set_padding(cref::Node& root, size_t len) {
   }
   return false;
 }
+static bool g_definite_blocks = false;   // per case: emit the block array with a definite length (valid C-DNS, not what the exporter writes)
 static std::string encode_file(const cref::Node& root) {
   // the exporter writes: definite array(3), text, preamble, indefinite array of blocks
   std::string o;
   cref::put_head_min(o, cref::ARR, 3);
   cref::encode(root.kids[0], o);
   cref::encode(root.kids[1], o);
-  o.push_back((char)0x9F);
+  if (g_definite_blocks) cref::put_head_min(o, cref::ARR, root.kids[2].kids.size()); else o.push_back((char)0x9F);
   for (auto& b : root.kids[2].kids) cref::encode(b, o);
-  o.push_back((char)0xFF);
+  if (!g_definite_blocks) o.push_back((char)0xFF);
   return o;
 }
 
@@ -59,6 +60,16 @@ static void c05_file(Case& cs) {
   filegen::Result fr = filegen::make(c, cs.scratch, fo);
   cref::Node root; std::string err;
   if (!cref::parse_all(fr.bytes, root, err)) { cs.st.cnt("blocked:generated_file_not_well_formed"); return; }
+  // variant: definite-length block array whose last block ends with a long string (an unknown member carrying 70 000 or
+  // 140 000 bytes): then nothing follows the string, and a reader that fabricates its tail would return the block as complete
+  g_definite_blocks = c.range(0, 3) == 0;
+  if (g_definite_blocks && !root.kids[2].kids.empty() && root.kids[2].kids.back().major == cref::MAP) {
+    cref::Node& last = root.kids[2].kids.back();
+    last.kids.push_back(cref::mk_uint(99));
+    last.kids.push_back(c.coin() ? cref::mk_bstr(std::string(c.coin() ? 70000 : 140000, 'T')) : cref::mk_tstr(std::string(c.coin() ? 65535 : 100000, 't')));
+    last.arg = last.kids.size() / 2;
+    cs.st.cls("definite_block_array_ending_in_long_string");
+  }
   // alignment: make |f|, a block end, or the start of the block array fall on (a multiple of the window) + d
   int amode = (int)c.range(0, 3);
   int dlt = (int)c.range(0, 6) - 3;
@@ -92,7 +103,7 @@ static void c05_file(Case& cs) {
   LibRead whole = lib_read(file, true);
   VF_CHECK(whole.ctor_ok && whole.eof && whole.blocks.size() == full.blocks.size(),
            "sig=c05.full_file the complete file (" << file.size() << " B, " << full.blocks.size() << " blocks) was not read to eof: ctor_ok=" << whole.ctor_ok << " blocks=" << whole.blocks.size() << " exc=" << whole.exc_type << " " << whole.exc_what);
-  size_t header_end = full.blocks.empty() ? file.size() - 1 : full.blocks[0].begin;
+  size_t header_end = full.blocks.empty() ? file.size() - (g_definite_blocks ? 0 : 1) : full.blocks[0].begin;
   // prefix lengths
   std::set<size_t> ns;
   auto around = [&](size_t x) { for (int d = -3; d <= 3; d++) { long v = (long)x + d; if (v >= 0 && (size_t)v <= file.size()) ns.insert((size_t)v); } };
